@@ -990,7 +990,7 @@ func (w *World) formatDiscipline() []*FuncResult {
 					} else if cc.IsInvoke() {
 						callee = w.shortType(cc.Value.Type()) + "." + cc.Method.Name()
 					}
-					o := &Obligation{Name: fmt.Sprintf("%s#formatarg.%d", name, n), Func: name, Kind: "post", Props: []string{"C03", "C09"},
+					o := &Obligation{Name: fmt.Sprintf("%s#formatarg.%d", name, n), Func: name, Kind: "post", Props: []string{"C03", "C09", "C07", "C10"},
 						Text: "the format string handed to " + callee + " is program text: a constant or the caller's own format parameter (structural)", Pos: w.Fset.Position(ins.Pos()).String()}
 					q := &Query{Goal: tTrue, Status: "trivial"}
 					if !ok2 {
